@@ -123,6 +123,14 @@ impl McGroupStatusAnsCreator {
     }
 
     pub fn push(&mut self, group_id: u8, mc_addr: McAddr) -> Result<&mut Self, Error> {
+        // AnsGroupMask has one bit per group: ids past the last group would spill into
+        // NbTotalGroups (or overflow the shift), and the buffer holds MAX_GROUPS items.
+        if group_id as usize >= MAX_GROUPS {
+            return Err(Error::InvalidIndex);
+        }
+        if self.items >= MAX_GROUPS {
+            return Err(Error::BufferTooShort);
+        }
         // update bitmask in status byte
         let bm = 1 << group_id;
         self.data[1] |= bm;
